@@ -59,6 +59,10 @@ def run(ck, tier, seed):
     if synth_cases is None:
         return
     cases = list(synth_cases)
+    cm_cases = readers_common.classmap_cases(ck, tier, seed, tmp)
+    if cm_cases is None:
+        return
+    cases += cm_cases
     # L3: field rewriting of shipped fonts
     fonts = sorted(glob.glob(os.path.join(vlib.REPO, "tests/fonts/*.ttf")))
     if q:
